@@ -107,6 +107,10 @@ pub fn known_findings() -> Vec<(String, String)> {
     v
 }
 
+pub fn repo_head_pub() -> (String, bool) {
+    repo_head()
+}
+
 fn repo_head() -> (String, bool) {
     let out = |args: &[&str]| -> String {
         std::process::Command::new("git").args(args).output().map(|o| String::from_utf8_lossy(&o.stdout).trim().to_string()).unwrap_or_default()
